@@ -276,6 +276,24 @@ def run(ctx):
     obs.append(ob("C20.hash/positive-control", pc_ok, "fixtures/poscontrol/src/lib.rs",
                   "detector verdicts on the fixture: %r (expected two rejected sites in hash_order_emit, one accepted in hash_order_sorted)" % verdicts))
 
+    if ctx.tier == "thorough":
+        # cross-reference: clippy's iter_over_hash_type is an independent enumeration of hash-ordered iteration; every site it
+        # reports must be one the MIR query has classified above (whatever the verdict), and it must fire on the fixture.
+        import clippyxref as cx
+        try:
+            cs = [s_ for s_ in cx.repo_sites() if s_["lint"] in cx.HASH_LINTS]
+            fs = [s_ for s_ in cx.fixture_sites() if s_["lint"] in cx.HASH_LINTS]
+            mine = set()
+            for b, c in sites:
+                m_ = re.match(r"(.*?):(\d+):", c["span"])
+                if m_:
+                    mine.add(cx.norm(m_.group(1)) + (int(m_.group(2)),))
+            miss = [s_ for s_ in cs if not any(cx.norm(s_["file"]) + (ln,) in mine for ln in range(s_["line"], s_["line_end"] + 1))]
+            obs.append(ob("C20.xref/clippy/iter_over_hash_type", not miss, (miss[0]["file"] + ":%d" % miss[0]["line"]) if miss else "both crates",
+                          "%d site(s) reported by clippy::iter_over_hash_type, %d of them unknown to the MIR query: %s" % (len(cs), len(miss), ["%s:%d" % (s_["file"], s_["line"]) for s_ in miss[:5]])))
+            obs.append(ob("C20.xref/clippy/positive-control", len(fs) >= 1, "fixtures/poscontrol", "clippy::iter_over_hash_type raised %d time(s) on the fixture (must be >= 1: the lint has run)" % len(fs)))
+        except Exception as e:  # noqa: BLE001
+            obs.append(ob("C20.xref/clippy/run", False, "cargo +nightly clippy", "the cross-reference lint run failed: %s" % str(e)[:600]))
     # C20.src
     def nondet_calls(mir, crs):
         out = []
